@@ -1,0 +1,30 @@
+//go:build verif
+
+// Contracts read by /verif/govc (comment-only; never compiled into the node).
+
+package merkle_tree
+
+// C18 (safety and shape part): every function is panic-free for every input sequence (incl. empty, nil entries) and
+// every index inside its documented range, writes nothing that existed before, and returns results of the specified
+// shape. The hash function is a caller-supplied value assumed not to write memory; its results are unconstrained.
+
+// GP E.? P^s: the half containing i, split at ceil(|v|/2) — the same split N uses, so that a trace folds to N's root
+//@ func Ps
+//@   props C18
+//@   requires len: len(v) < 4294967296
+//@   ensures half: (uint64(i) < uint64((len(v)+1)/2) ==> len(result) == (len(v)+1)/2) && (uint64(i) >= uint64((len(v)+1)/2) ==> len(result) == len(v) - (len(v)+1)/2)
+
+//@ func PI
+//@   props C18
+//@   requires len: len(v) < 4294967296
+//@   ensures idx: (uint64(i) < uint64((len(v)+1)/2) ==> result == 0) && (uint64(i) >= uint64((len(v)+1)/2) ==> uint64(result) == uint64((len(v)+1)/2))
+
+// one page of 2^x hashed leaves: page i must exist, otherwise end-start wraps and the capacity requested from make()
+// is about 2^32 hashes
+//@ func Lx
+//@   props C18
+//@   opt purecalls=1
+//@   requires fn: hashFunc != nil && x <= 16 && len(v) < 4294967296 && (uint64(i) + 1) << uint64(x) <= 4294967295 && uint64(i) << uint64(x) <= uint64(len(v))
+//@   ensures page: len(result) <= 65536 && fresh(result)
+//@   assigns everything
+//@   opt loopinv=fresh(ret) && uint64(idx) >= uint64(start) && uint64(idx) <= uint64(end) && uint64(end) <= uint64(len(v)) && uint64(len(ret)) == uint64(idx) - uint64(start) && uint64(end) - uint64(start) <= 65536 && uint64(cap(ret)) >= uint64(end) - uint64(start)
